@@ -305,7 +305,7 @@ def run_stage(ck, brk, n_pairs, n_checks, n_attach):
             ev["attach"]["cases"] += 1
             ev["attach"]["values_offered"] += len(raw)
             ev["attach"]["values_attached"] += len(real)
-            if got != real:
+            if not (isinstance(got, dict) and got.get("checked") == real and got.get("one") == real):
                 ev["attach"]["mismatch"] += 1
                 brk(ck, "correspondence", "Node.inference: which propagated values are attached",
                     f"{name}: types {tys} raw {raw}: real {real}, model {got}"[:600])
